@@ -51,7 +51,8 @@ Fact(n) == IF n = 0 THEN 1 ELSE n * Fact(n - 1)
 IPow2(n) == R(Fact(n))
 RECURSIVE Eval(_, _)
 Eval(t, env) ==
-    CASE t.k = "var" -> IF t.n = "t" THEN TimeVal ELSE env[t.n]
+    CASE t.k = "var" -> (CASE t.n = "t" -> TimeVal [] t.n = "dt" -> R(1) [] t.n = "starttime" -> R(0) [] t.n = "stoptime" -> R(3)   \* run spec of the harness model
+                           [] OTHER -> env[t.n])
       [] t.k = "lit" -> t.q
       [] t.k = "neg" -> Neg(Eval(t.x, env))
       [] t.k = "bin" ->
@@ -84,7 +85,12 @@ Eval(t, env) ==
                   [] t.f = "factorial" -> IF IsInt(x) /\ x[1] >= 0 /\ x[1] <= 7 THEN IPow2(x[1]) ELSE Undef)
       [] t.k = "fn2" ->
            LET x == Eval(t.x, env)  y == Eval(t.y, env) IN
-           IF ~IsDef(x) \/ ~IsDef(y) \/ ~Apart(x, y) THEN Undef
+           IF ~IsDef(x) \/ ~IsDef(y) THEN Undef
+           ELSE IF t.f \in {"combinations", "permutations"}
+           THEN (IF IsInt(x) /\ IsInt(y) /\ 0 <= y[1] /\ y[1] <= x[1] /\ x[1] <= 8
+                 THEN R(IF t.f = "permutations" THEN Fact(x[1]) \div Fact(x[1] - y[1]) ELSE Fact(x[1]) \div (Fact(y[1]) * Fact(x[1] - y[1])))
+                 ELSE Undef)
+           ELSE IF ~Apart(x, y) THEN Undef
            ELSE (CASE t.f = "min" -> MinR(x, y) [] t.f = "max" -> MaxR(x, y)
                   [] t.f = "safediv" -> Div(x, y))
 
@@ -92,7 +98,7 @@ Eval(t, env) ==
 LitPy(q) == IF q[2] = 1 THEN ToString(q[1]) ELSE "(" \o ToString(q[1]) \o "/" \o ToString(q[2]) \o ".0)"
 RECURSIVE PyText(_)
 PyText(t) ==
-    CASE t.k = "var" -> IF t.n = "t" THEN "sd.time()" ELSE t.n
+    CASE t.k = "var" -> (CASE t.n = "t" -> "sd.time()" [] t.n \in {"dt", "starttime", "stoptime"} -> "sd." \o t.n \o "(m)" [] OTHER -> t.n)
       [] t.k = "lit" -> LitPy(t.q)
       [] t.k = "neg" -> "(-" \o PyText(t.x) \o ")"
       [] t.k = "bin" -> IF t.op = "and" THEN "sd.And(" \o PyText(t.l) \o ", " \o PyText(t.r) \o ")"
@@ -116,7 +122,7 @@ NameX(n, style) == IF style = "red" THEN n ELSE n
 RECURSIVE XText(_, _)
 XText(t, style) ==
     LET sub(u, need) == IF need \/ (style = "red" /\ u.k \notin {"var", "lit"}) THEN Par(XText(u, style)) ELSE XText(u, style) IN
-    CASE t.k = "var" -> IF t.n = "t" THEN "TIME" ELSE t.n
+    CASE t.k = "var" -> (CASE t.n = "t" -> "TIME" [] t.n = "dt" -> "DT" [] t.n = "starttime" -> "STARTTIME" [] t.n = "stoptime" -> "STOPTIME" [] OTHER -> t.n)
       [] t.k = "lit" -> LitX(t.q)
       [] t.k = "neg" -> "-" \o sub(t.x, Prec(t.x) < 8 /\ t.x.k \notin {"var", "lit", "fn1", "fn2"})
       [] t.k = "bin" ->
@@ -129,13 +135,17 @@ XText(t, style) ==
       [] t.k = "if" -> "IF " \o XText(t.c, style) \o " THEN " \o sub(t.x, t.x.k = "if") \o " ELSE " \o sub(t.y, t.y.k = "if")
       [] t.k = "fn1" -> (CASE t.f = "abs" -> "ABS" [] t.f = "sqrt" -> "SQRT" [] t.f = "exp" -> "EXP" [] t.f = "round" -> "ROUND" [] t.f = "int" -> "INT" [] t.f = "factorial" -> "FACTORIAL")
                         \o Par(XText(t.x, style))
-      [] t.k = "fn2" -> (CASE t.f = "min" -> "MIN" [] t.f = "max" -> "MAX" [] t.f = "safediv" -> "SAFEDIV")
+      [] t.k = "fn2" -> (CASE t.f = "min" -> "MIN" [] t.f = "max" -> "MAX" [] t.f = "safediv" -> "SAFEDIV" [] t.f = "combinations" -> "COMBINATIONS" [] t.f = "permutations" -> "PERMUTATIONS")
                         \o Par(XText(t.x, style) \o ", " \o XText(t.y, style))
 
 (******************************** families *********************************)
 Ops2 == BinOps
 \* operand menu for position tests: an element or a literal (literal operands route through __radd__ etc.)
+Fn1F == Fn1 \ {"runspec"}        \* "runspec" in Fn1 only switches the run-spec leaves on
 Inner(o) == {Bin(o, A, B), Bin(o, B, C), Bin(o, Lit(<<2, 1>>), B), Bin(o, A, Lit(<<2, 1>>)), Bin(o, T, B), Bin(o, A, T)}
+\* the run-spec functions of the DSL (dt(), starttime(), stoptime()) as operands
+RunSpecLeaves == IF "runspec" \in Fn1 THEN {Var("dt"), Var("starttime"), Var("stoptime")} ELSE {}
+RunSpecTrees == UNION {{Bin(o, l, B), Bin(o, A, l), Bin(o, Bin(o, A, l), C), Bin(o, C, Bin(o, l, A))} : o \in Ops2 \cap Arith, l \in RunSpecLeaves}
 \* every (outer, position, inner) nesting of two binary operators
 Pairs == UNION {{Bin(o, i, C), Bin(o, C, i), Bin(o, i, Lit(<<2, 1>>)), Bin(o, Lit(<<2, 1>>), i)} : o \in Ops2, i \in UNION {Inner(o2) : o2 \in Ops2}}
 \* unary / function wrappers around and inside binary operators
@@ -143,8 +153,8 @@ Wraps == {NegT(i) : i \in UNION {Inner(o) : o \in Ops2}}
          \cup {Bin(o, NegT(A), B) : o \in Ops2} \cup {Bin(o, A, NegT(B)) : o \in Ops2}
          \cup {Bin(o, NegT(Lit(<<2, 1>>)), B) : o \in Ops2} \cup {Bin(o, A, NegT(Lit(<<2, 1>>))) : o \in Ops2}      \* negative literals
          \cup {Bin(o, NegT(Lit(<<1, 2>>)), Lit(<<2, 1>>)) : o \in Ops2} \cup {Bin(p, C, Bin(o, NegT(Lit(<<3, 1>>)), Lit(<<2, 1>>))) : o, p \in Ops2 \cap Arith}
-         \cup {F1(f, i) : f \in Fn1, i \in UNION {Inner(o) : o \in Ops2}}
-         \cup {Bin(o, F1(f, A), B) : o \in Ops2, f \in Fn1} \cup {Bin(o, A, F1(f, B)) : o \in Ops2, f \in Fn1}
+         \cup {F1(f, i) : f \in Fn1F, i \in UNION {Inner(o) : o \in Ops2}}
+         \cup {Bin(o, F1(f, A), B) : o \in Ops2, f \in Fn1F} \cup {Bin(o, A, F1(f, B)) : o \in Ops2, f \in Fn1F}
          \cup {F2(f, i, C) : f \in Fn2, i \in UNION {Inner(o) : o \in Ops2}}
          \cup {F2(f, C, i) : f \in Fn2, i \in UNION {Inner(o) : o \in Ops2}}
          \cup {Bin(o, F2(f, A, B), C) : o \in Ops2, f \in Fn2} \cup {Bin(o, C, F2(f, A, B)) : o \in Ops2, f \in Fn2}
@@ -169,7 +179,7 @@ SharedSubs == UNION {Inner(o) : o \in Ops2 \cap Arith} \cup {NegT(A), F1("abs", 
 UsesOf == {Bin(o, U, C) : o \in Ops2 \cap Arith} \cup {Bin(o, C, U) : o \in Ops2 \cap Arith}
           \cup {NegT(U), F1("abs", U), F2("max", U, C), Bin("-", Bin("+", U, C), A), Bin("-", A, Bin("-", U, C))}
 Shared == {[k |-> "prog", u |-> s, e1 |-> x, e2 |-> y] : s \in SharedSubs, x \in UsesOf, y \in UsesOf}
-Trees == CASE Family = "pairs" -> Pairs \cup Wraps \cup Ifs
+Trees == CASE Family = "pairs" -> Pairs \cup Wraps \cup Ifs \cup RunSpecTrees
            [] Family = "chains" -> Chains
            [] Family = "depth2" -> Depth(2)
            [] Family = "shared" -> Shared
